@@ -14,7 +14,7 @@ git checkout -q -- .
 go test -count=1 -run 'Demo' . >/tmp/mut/$id.demo_without.log 2>&1 && echo "demo without patch: PASS (expected)" || echo "demo without patch: FAIL (unexpected)"
 rm -f zz_demo*_test.go
 # now against /repo
-cd /repo && git apply --3way $W/patch$n.diff 2>/dev/null || git apply $W/patch$n.diff || { echo "PATCH-DOES-NOT-APPLY-IN-REPO"; git checkout -q -- .; exit 8; }
+cd /repo && git apply $W/patch$n.diff 2>/dev/null || git apply --3way $W/patch$n.diff || { echo "PATCH-DOES-NOT-APPLY-IN-REPO"; git checkout -q HEAD -- .; exit 8; }
 git -C /repo reset -q 2>/dev/null
 (cd /repo && go build ./... ) || { git -C /repo checkout -q -- .; echo REPO-BUILD-FAIL; exit 8; }
 cd /verif
